@@ -222,37 +222,43 @@ def fill_labels(facts, f, roles, api):
 
 
 def match_labels(f, loc):
-    """labels 'm:<Variant>=<const>' for constants assigned, in an arm of an enum match, to a local that
-    feeds the statement at loc"""
+    """labels 'm:<Variant>=<const>' for a value that depends on a crate enum argument: for every variant of every enum
+    whose discriminant the function reads, the constant that reaches the statement at loc on the feasible paths
+    (so `match flag {A => X, B => Y}`, `if matches!(flag, A) {X} else {Y}` and a flag kept in a local agree).
+    No label when the value does not depend on the variant."""
+    from .kernel import place_key, Loc, def_expr
     out = set()
     s = f.at(loc)
     if s['k'] != 'assign':
         return out
-    leaf = ExprBuilder(f, multi='leaf')
     rv = s['rv']
-    e = leaf.rvalue(rv)
-    seen = set()
-    work = [x[1] for x in subexprs(e) if x[0] == 'local']
-    phi = ExprBuilder(f, multi='phi')
-    while work:
-        l = work.pop()
-        if l in seen:
-            continue
-        seen.add(l)
-        defs = [d for d in f.defs.get(l, []) if not f.blocks[d[0][0]]['cleanup']]
-        if len(defs) < 2:
-            continue
-        for d in defs:
-            conds = [c for c in sqe.dominating_variants(f, d[0]) if c[0] and not c[0].startswith(('std::option::', 'std::result::', 'std::ops::', 'std::task::', 'callee:'))]
-            if not conds:
-                continue
-            val = phi.definition(d, 0, (l,))
-            for x in subexprs(val):
-                if x[0] == 'const' and (x[1] is not None or x[2]):
-                    nm = x[2]
-                    cn = str(nm).rsplit('::', 1)[1] if nm is not None and '::' in str(nm) else str(x[1])
-                    for c in conds:
-                        out.add('m:%s=%s' % (c[1], cn))
-                elif x[0] == 'local' and x[1] not in seen:
-                    work.append(x[1])
+    opnd = rv['ops'][0] if (rv['k'] == 'agg' and len(rv.get('ops', [])) == 1) else (rv.get('op') if rv['k'] in ('use', 'cast') else None)
+    if opnd is None or 'l' not in opnd or opnd['p']:
+        return out
+    eb = ExprBuilder(f, multi='phi')
+    discrs = []
+    for dl, s_ in f.assigns():
+        r2 = s_['rv']
+        if r2['k'] == 'discr' and r2.get('variants') and len(r2['variants']) > 1 and (r2.get('adt') or '') not in ('std::option::Option', 'std::result::Result', 'std::ops::ControlFlow', 'std::task::Poll', 'std::cmp::Ordering'):
+            key = r2['place']['l'] if not r2['place']['p'] else place_key(r2['place'])
+            if key not in [d[0] for d in discrs] and f.forward_paths_hit([dl], [loc]) is not None:
+                discrs.append((key, r2['variants'], dl))
+
+    def const_name(e):
+        cs = [x for x in subexprs(e) if x[0] == 'const' and (x[1] is not None or x[2])]
+        if len(cs) != 1 or any(x[0] in ('arg', 'call') for x in subexprs(e)):
+            return None
+        nm = cs[0][2]
+        return str(nm).rsplit('::', 1)[1] if nm is not None and '::' in str(nm) else str(cs[0][1])
+    for key, variants, dl in discrs:
+        per = {}
+        for vidx, vname in variants:
+            defs = f.reaching_defs([dl], loc, opnd['l'], env0={('D', key): int(vidx)})
+            names = set()
+            for d in defs:
+                names.add(None if d == 'entry' else const_name(def_expr(f, d, eb)))
+            per[vname] = names
+        if all(len(v) == 1 and None not in v for v in per.values()) and len({next(iter(v)) for v in per.values()}) > 1:
+            for vname, v in per.items():
+                out.add('m:%s=%s' % (vname, next(iter(v))))
     return out
